@@ -494,6 +494,15 @@ static std::vector< std::string > split(const std::string &line) {
 //      count and the cursor are recorded: {"e":"m","op":..,"arg":..,"ret":..,"flags":[..],"taken":n,"cursor":c}
 //  (b) stress: T real threads each apply K operations of one kind to one AtomicValue without any controller; the value at
 //      the end is recorded next to the sum of the operands: {"e":"stress","kind":..,"threads":T,"ops":K,"expected":x,"got":y}
+static std::atomic< int > g_park_state(0); // 0 running, 1 parked, 2 resume
+static thread_local bool g_is_releaser = false;
+static void park_callback(const char *label, const void *) {
+  if (g_is_releaser && strcmp(label, "pre_decrement") == 0 && g_park_state.load() == 0) {
+    g_park_state.store(1);
+    while (g_park_state.load() != 2)
+      usleep(1);
+  }
+}
 static int do_maint(unsigned long seed, int nseq, const char *outname) {
   FILE *out = fopen(outname, "w");
   uint64_t x = 88172645463325252ULL ^ (seed * 2654435761ULL);
@@ -614,6 +623,100 @@ static int do_maint(unsigned long seed, int nseq, const char *outname) {
       fprintf(out, "{\"e\":\"q\",\"op\":\"%s\",\"a\":%ld,\"b\":%ld,\"ret\":%ld,\"queue\":[%s],\"locked\":%d}\n", op.c_str(), a, b, ret,
               qs.c_str(), (int)VerifAccess::qlocked(queue));
     }
+  }
+  // (c2) a runnable task below n queued tasks whose resource is held by someone else: the pop must reach it, whatever n
+  //      {"e":"q",...,"blo":lo,"bhi":hi}  tasks lo .. hi-1 are blocked while the call is made
+  {
+    const size_t depths[] = {0, 1, 2, 7, 63, 64, 65, 130, 700};
+    for (size_t di = 0; di < sizeof(depths) / sizeof(depths[0]); ++di) {
+      for (int variant = 0; variant < 2; ++variant) {
+        const size_t n = depths[di];
+        ThreadSafeVector< Task > tasks(n + 2, "tasks");
+        tasks.get_free_elements(n + 1);
+        ThreadLock busy;
+        for (size_t t = 1; t <= n; ++t)
+          tasks[t].set_dependency(&busy);
+        TaskQueue queue(n + 3, "queue");
+        fprintf(out, "{\"e\":\"qreset\",\"size\":%zu}\n", n + 3);
+        auto rec = [&](const char *op, long a, long b, long ret, long blo, long bhi) {
+          std::string qs;
+          for (size_t i = 0; i < VerifAccess::qsize(queue); ++i)
+            qs += std::string(i ? "," : "") + std::to_string(VerifAccess::qat(queue, i));
+          fprintf(out, "{\"e\":\"q\",\"op\":\"%s\",\"a\":%ld,\"b\":%ld,\"ret\":%ld,\"queue\":[%s],\"locked\":%d,\"blo\":%ld,\"bhi\":%ld}\n",
+                  op, a, b, ret, qs.c_str(), (int)VerifAccess::qlocked(queue), blo, bhi);
+        };
+        queue.add_tasks(0, n + 1);
+        rec("add_range", 0, n + 1, -1, 0, 0);
+        busy.lock();
+        for (int k = 0; k < 2; ++k) { // the second call finds only blocked tasks
+          const size_t t = variant ? queue.try_get_task(tasks) : queue.get_task(tasks);
+          if (t != NO_TASK)
+            tasks[t].unlock_dependency();
+          rec(variant ? "try_get" : "get", -1, -1, t == NO_TASK ? -1 : (long)t, 1, n + 1);
+        }
+        busy.unlock();
+        for (int k = 0; k < 3; ++k) {
+          const size_t t = variant ? queue.try_get_task(tasks) : queue.get_task(tasks);
+          if (t != NO_TASK)
+            tasks[t].unlock_dependency();
+          rec(variant ? "try_get" : "get", -1, -1, t == NO_TASK ? -1 : (long)t, 0, 0);
+        }
+      }
+    }
+  }
+  // (c3) hand-over of a slot of the photon buffer pool: a thread that releases a buffer is stopped between clearing the
+  //      slot flag and lowering the occupancy count (the yield point of that decrement); another thread obtains the very
+  //      same slot and stores packets; the releaser continues.  What the new holder stored must still be there.
+  //      {"e":"handover","size":n,"slot":s,"wrote":w,"found":f,"taken":t}
+  for (size_t size = 1; size <= 9; size += (size < 3 ? 1 : 3)) {
+    if (size == 1)
+      continue; // the new holder cannot get a slot while the count still says "full"
+    MemorySpace *space = new MemorySpace(size);
+    const size_t slot = space->get_free_buffer();
+    for (int i = 0; i < 3; ++i)
+      (*space)[slot][(*space)[slot].get_next_free_photon()].set_position(CoordinateVector<>(-1., 0., 0.));
+    g_park_state.store(0);
+    const int oldmode = cmi_verif::state()._mode;
+    cmi_verif::state()._callback.store(park_callback);
+    cmi_verif::state()._mode = 2;
+    std::thread releaser([&]() {
+      g_is_releaser = true;
+      space->free_buffer(slot);
+      g_is_releaser = false;
+    });
+    // wait until the releaser is parked (or finished: a version without that yield point)
+    for (long spin = 0; g_park_state.load() == 0 && spin < 2000000; ++spin)
+      usleep(1);
+    long got = -1;
+    std::vector< size_t > others;
+    for (size_t k = 0; k < 2 * size + 2 && got < 0; ++k) {
+      const size_t b = space->get_free_buffer();
+      if (b == slot)
+        got = b;
+      else if (b < size)
+        others.push_back(b);
+      if (others.size() + 1 >= size) { // keep the pool from filling up: give the others back
+        for (size_t o : others)
+          space->free_buffer(o);
+        others.clear();
+      }
+    }
+    for (size_t o : others)
+      space->free_buffer(o);
+    const unsigned wrote = 5;
+    if (got >= 0)
+      for (unsigned i = 0; i < wrote; ++i)
+        (*space)[slot][(*space)[slot].get_next_free_photon()].set_position(CoordinateVector<>(7. + i, 0., 0.));
+    g_park_state.store(2); // resume
+    releaser.join();
+    cmi_verif::state()._mode = oldmode;
+    unsigned found = 0;
+    if (got >= 0)
+      for (unsigned i = 0; i < (*space)[slot].size(); ++i)
+        found += (*space)[slot][i].get_position().x() == 7. + i;
+    fprintf(out, "{\"e\":\"handover\",\"size\":%zu,\"slot\":%zu,\"regot\":%d,\"wrote\":%u,\"found\":%u,\"bufsize\":%u,\"taken\":%zu}\n", size, slot,
+            (int)(got >= 0), wrote, found, got >= 0 ? (unsigned)(*space)[slot].size() : 0u, space->get_number_of_active_buffers());
+    delete space;
   }
   // (d) MemorySpace::add_photons: packets of a staging buffer are appended to a pool buffer; when it becomes full the
   //     rest goes into a fresh buffer that inherits subgrid and direction. Packets are identified by their position.
